@@ -178,7 +178,7 @@ struct StaticClass {
             if (large) { p.set("successor_same_data", 1); p.set("successor_procs", cfg.range(1, 20)); }
         }
         if (!scale && !scale19 && (g.prop == "C08" || g.prop == "C09" || g.prop == "C10" || g.prop == "C18" || g.prop == "C17") && cfg.chance(g.prop == "C18" ? 150 : 60)) p.set("pre_reject", 1);
-        { Rng use = sim::stream(g.run_seed, "usage2"); if (!scale && !scale19 && !large && !p.has("successor") && (g.prop == "C08" || g.prop == "C09" || g.prop == "C10" || g.prop == "C17") && use.chance(80)) p.set("copy_outlives", 1 + use.below(2)); }
+        { Rng use = sim::stream(g.run_seed, "usage2"); if (!scale && !scale19 && !large && !p.has("successor") && (g.prop == "C08" || g.prop == "C09" || g.prop == "C10" || g.prop == "C17") && use.chance(100)) p.set("copy_outlives", 1 + use.below(4)); }
         if (g.prop == "C19") { p.set("steps", draw_lifetime_steps(cfg)); p.set("qmax", scale19 ? 20000 : (large ? 300 : 400)); }
         if (g.prop == "C20") p.set("reserved_copies", cfg.range(1, 3));
         p.set("known_skip", 1); // queries inside the query-level predicate of a known finding are executed but not judged
@@ -303,13 +303,19 @@ struct StaticClass {
                 std::vector<K> data2;
                 for (size_t i = 0; i < n; ++i) if ((i & 1) || i + 1 == n) data2.push_back(data[i]);
                 bool overwritten = false;
+                const uint64_t mode = p.get_u("copy_outlives", 0);
                 if constexpr (can_copy_assign<Index>) {
-                    if (p.get_u("copy_outlives", 0) == 2) {
+                    if (mode >= 2) {
                         sim::begin_run(env);
                         Index *other = nullptr;
                         try { other = Tr::build(data2); } catch (const std::exception &) {}
                         sim::end_run();
-                        if (other) { *idx = *other; delete other; overwritten = true; }
+                        if (other) {
+                            if (mode == 2) *idx = *other;                                            // copy assignment onto a built index
+                            else if constexpr (can_move_assign<Index>) { if (mode == 3) *idx = std::move(*other); else std::swap(*idx, *other); } // move assignment / swap
+                            else *idx = *other;
+                            delete other; overwritten = true;
+                        }
                     }
                 }
                 if (!overwritten) { delete idx; idx = nullptr; }
@@ -339,7 +345,7 @@ struct StaticClass {
                             if (auxa.known_affected(q)) { if (known_skip) continue; }
                             if (!check_contract(data2, q, r, Tr::eps_of(p), clauses, o) || !auxa.check(*idx, data2, q, r, o, st)) {
                                 if (prop == "C17") { scratch = Outcome(); continue; }
-                                o.detail = "index that was copy-assigned onto an already built one: " + o.detail;
+                                o.detail = "index that was assigned (copy / move / swap, mode " + std::to_string(mode) + ") onto an already built one: " + o.detail;
                                 break;
                             }
                         }
